@@ -11,6 +11,7 @@ with the prototypes / definitions in the generated C files (and the user's heade
 import glob
 import json
 import os
+import re
 import shutil
 import subprocess
 import sys
@@ -63,6 +64,27 @@ def check_dir(ctx, od, name, user_headers):
             fails.append({"input": name, "module": os.path.basename(f), "what": "the generated Fortran module does not compile",
                           "gfortran": p0.stderr.strip()[-600:]})
             continue
+        # numeric / logical dummies and results of a bind(C) interface carry an interoperable kind: a default-kind LOGICAL, INTEGER or
+        # REAL gets the same C rendering from -fc-prototypes as the C_BOOL / C_INT / C_FLOAT kind but need not have its size
+        # (gfortran reports these under -Wc-binding-type; assumed-length CHARACTER of the CFI interfaces is legal Fortran 2018)
+        in_bindc = False
+        stmts = []           # (first line number, statement with continuation lines joined)
+        for ln, t in enumerate(open(f, errors="replace").read().split("\n")):
+            if stmts and stmts[-1][1].rstrip().endswith("&"):
+                stmts[-1] = (stmts[-1][0], stmts[-1][1].rstrip()[:-1] + " " + t.strip().lstrip("&"))
+            else:
+                stmts.append((ln + 1, t))
+        for ln, t in stmts:
+            low = t.strip().lower()
+            if re.match(r"^(?:pure\s+|elemental\s+)*(?:function|subroutine)\b", low):
+                in_bindc = "bind(c" in low.replace(" ", "")
+                continue
+            if low.startswith(("end function", "end subroutine")):
+                in_bindc = False
+                continue
+            if in_bindc and re.match(r"^(logical|integer|real|complex|double\s+precision)\s*(,|::)", low):
+                fails.append({"input": name, "module": os.path.basename(f), "line": ln, "text": t.strip()[:160],
+                              "what": "a bind(C) interface declares a variable of default kind (not C interoperable: no C_BOOL / C_INT / C_FLOAT ... kind)"})
         p = subprocess.run(base + ["-fc-prototypes", f], capture_output=True, text=True, cwd=od)
         if p.returncode != 0:
             notes.append("%s/%s: gfortran could not process the module (%s)" % (name, os.path.basename(f), p.stderr.strip().split("\n")[-1][:120]))
